@@ -158,11 +158,11 @@ func checkDefs() map[string]CheckDef {
 	add(CheckDef{
 		ID: "C10",
 		Obligations: []Obligation{
-			{Pkg: "internal/verifh/c10", Harness: "VerifC10Step", Quick: map[string]int{"sigKinds": 2, "curKinds": 1, "parents": 1, "owns": 1}, Thor: map[string]int{"sigKinds": 3, "curKinds": 2, "parents": 2, "owns": 2}, TV: 30},
+			{Pkg: "internal/verifh/c10", Harness: "VerifC10Step", Quick: map[string]int{"sigKinds": 2, "curKinds": 1, "parents": 1, "owns": 1}, Thor: map[string]int{"sigKinds": 3, "curKinds": 2}, TV: 30},
 			{Pkg: "internal/verifh/c10", Harness: "VerifC10Width", TV: 10},
 		},
 		Assumptions: persistAssume,
-		BoundsText:  "one inductive step: arbitrary invariant-satisfying machine (any phase, current transaction absent/fully signed [/adopted in thorough], staging absent or present with any subset of signature slots) whose store is the full dump written by ChannelCreated (the step re-establishes 'store = dump of the machine' key for key and byte for byte, so one step covers histories of any length); one operation of the complete alphabet of the persisting machine (17 operations, symbolic arguments) with the crash point before write event 0, 1 or never; restore with RestoreChannel and rebuild with RestoreStateMachine; 2 participants; with/without parent (thorough); signature-key width: channels of 3, 10 and 11 participants with signatures in any two slots",
+		BoundsText:  "one inductive step: arbitrary invariant-satisfying machine (any phase, current transaction absent/fully signed [/adopted in thorough], staging absent or present with any subset of signature slots) whose store is the full dump written by ChannelCreated (the step re-establishes 'store = dump of the machine' key for key and byte for byte, so one step covers histories of any length); one operation of the complete alphabet of the persisting machine (17 operations, symbolic arguments) with the crash point before write event 0, 1 or never; restore with RestoreChannel and rebuild with RestoreStateMachine; 2 participants; without parent (the parent key is exercised by C11); signature-key width: channels of 3, 10 and 11 participants with signatures in any two slots",
 		Outside:     []string{"LevelDB (file I/O, goroutines, compaction cannot be encoded)", "crashes inside a batch", "more than 2 participants in the step obligation"},
 	})
 	add(CheckDef{
@@ -192,13 +192,13 @@ func checkDefs() map[string]CheckDef {
 		ID: "C18",
 		Obligations: []Obligation{
 			{Pkg: "internal/verifh/c18", Harness: "VerifC18Sequential", Sched: true, Quick: map[string]int{"P": 0, "h": 4}, Thor: map[string]int{"h": 5}, TV: 30},
-			{Pkg: "internal/verifh/c18", Harness: "VerifC18Concurrent", Sched: true, Quick: map[string]int{"P": 0, "T": 2, "k": 2, "race": 1}, Thor: map[string]int{"T": 2, "k": 3}, TV: 30},
+			{Pkg: "internal/verifh/c18", Harness: "VerifC18Concurrent", Sched: true, Quick: map[string]int{"P": 0, "T": 2, "k": 2, "race": 1}, TV: 30},
 		},
 		Assumptions: append(append([]string{}, commonAssumptions...),
 			"predicates are harness closures whose verdict on each envelope is a symbolic boolean; consumers are recording stubs with OnClose support (poly-go Closer)",
 			"reference model: DESIGN.md Appendix A.6; a consumer that was closed but whose asynchronous removal may still be pending may or may not receive an envelope put in that window (both allowed); each envelope is put at most once per program; duplicate subscriptions (a documented panic) are not drawn",
 			"concurrency: the engine's cooperative scheduler explores every order of the operations and of the relay's own goroutines at blocking points (preemption bound 0); in addition every explored execution is checked for data races with a vector-clock happens-before detector (goroutine creation, sync.Mutex/RWMutex, channels, WaitGroup, Once, atomics, timers); a race is reported as a violation and confirmed natively by `go test -race`"),
-		BoundsText: "one relay, 2 consumers, 2 cache predicates, 3 envelopes, all predicate verdicts symbolic (12 booleans); sequential: all histories of h operations (h=4 quick, 5 thorough) over {put, subscribe, cache, release-cache, close-consumer} with quiescence after each; concurrent: T=2 goroutines with k=2 operations each (k=3 thorough), all operation-level interleavings, deliveries compared with the reference at quiescence, happens-before race detection on every execution",
+		BoundsText: "one relay, 2 consumers, 2 cache predicates, 3 envelopes, all predicate verdicts symbolic (12 booleans); sequential: all histories of h operations (h=4 quick, 5 thorough) over {put, subscribe, cache, release-cache, close-consumer} with quiescence after each; concurrent: T=2 goroutines with k=2 operations each, all operation-level interleavings, deliveries compared with the reference at quiescence, happens-before race detection on every execution",
 		Outside:    []string{"wire.Receiver's buffering", "preemption inside an operation beyond what the race detector reports (P>0)", "more than 3 goroutines"},
 	})
 	add(CheckDef{
